@@ -17,6 +17,11 @@ func (g *Generator) makeStr(typeName string) {
 	var values []Value
 	for _, f := range g.pkg.files {
 		ast.Inspect(f.file, func(n ast.Node) bool {
+			switch n.(type) {
+			case *ast.FuncDecl, *ast.FuncLit:
+				// constants declared inside a function body are not package-level constants
+				return false
+			}
 			decl, ok := n.(*ast.GenDecl)
 			if !ok {
 				return true
